@@ -14,14 +14,14 @@ def Instr.pops : Instr → Nat
   | .stop => 0 | .bin _ => 2 | .iszero => 1 | .not => 1 | .addmod => 3 | .mulmod => 3 | .exp => 2 | .env _ => 0
   | .calldataload => 1 | .calldatacopy => 3 | .codecopy => 3 | .returndatasize => 0 | .returndatacopy => 3
   | .pop => 1 | .mload => 1 | .mstore => 2 | .mstore8 => 2 | .jump => 1 | .jumpi => 2 | .pc => 0 | .msize => 0 | .gas => 0
-  | .jumpdest => 0 | .mcopy => 3 | .keccak => 2 | .push _ => 0 | .dup n => n | .swap n => n + 1 | .ret => 2 | .revert => 2
+  | .jumpdest => 0 | .mcopy => 3 | .keccak => 2 | .tload => 1 | .tstore => 2 | .push _ => 0 | .dup n => n | .swap n => n + 1 | .ret => 2 | .revert => 2
   | .journal j => j.arity
 
 def Instr.pushes : Instr → Nat
   | .stop => 0 | .bin _ => 1 | .iszero => 1 | .not => 1 | .addmod => 1 | .mulmod => 1 | .exp => 1 | .env _ => 1
   | .calldataload => 1 | .calldatacopy => 0 | .codecopy => 0 | .returndatasize => 1 | .returndatacopy => 0
   | .pop => 0 | .mload => 1 | .mstore => 0 | .mstore8 => 0 | .jump => 0 | .jumpi => 0 | .pc => 1 | .msize => 1 | .gas => 1
-  | .jumpdest => 0 | .mcopy => 0 | .keccak => 1 | .push _ => 1 | .dup n => n + 1 | .swap n => n + 1 | .ret => 0 | .revert => 0
+  | .jumpdest => 0 | .mcopy => 0 | .keccak => 1 | .tload => 1 | .tstore => 0 | .push _ => 1 | .dup n => n + 1 | .swap n => n + 1 | .ret => 0 | .revert => 0
   | .journal _ => 0
 
 theorem exec_stack {env : IEnv World} {i : Instr} {s s' : IState World} (h : exec env i s = .next s') :
@@ -488,6 +488,17 @@ theorem exec_safe (env : IEnv World) (hE : EnvOK env) (i : Instr) (s : IState Wo
       · rw [Nat.mod_eq_of_lt ho, Nat.mod_eq_of_lt hlU]; exact memGetPtr_inside _ _ _ (by omega) hinv
     simp only [exec, hl, hd, IState.cont, Out.notPanic, true_and]
     intro s' h; cases h; simp
+  | tload =>
+    obtain ⟨x, r, hl⟩ := ge1 (l := s.stack) (by simpa [Instr.pops] using hst)
+    simp only [exec, hl, IState.cont, Out.notPanic, true_and]
+    intro s' h; cases h; simp
+  | tstore =>
+    obtain ⟨x, y, r, hl⟩ := ge2 (l := s.stack) (by simpa [Instr.pops] using hst)
+    simp only [exec, hl]
+    split
+    · simp [Out.notPanic]
+    · simp only [Out.notPanic, true_and]
+      intro s' h; cases h; simp
   | journal j =>
     have ha : (s.stack.take j.arity).length = j.arity := by simp [Instr.pops] at hst; simp; omega
     have hnp := journal_no_panic j (s.stack.take j.arity) (env.mkEnv s.world s.mem) s.tr ha (hE.jenv _ _ hinv)
